@@ -34,7 +34,7 @@ const horizon = int64(1) << 61 // nanoseconds: times and durations stay far from
 
 func symTime(name string) time.Time {
 	ns := verifrt.I64(name)
-	verifrt.Assume(ns > -horizon && ns < horizon)
+	verifrt.Assume(verifrt.All(ns > -horizon, ns < horizon))
 	return time.Unix(0, ns).UTC()
 }
 
@@ -42,7 +42,7 @@ func symInfo(id string, tag string) epochstypes.EpochInfo {
 	dur := verifrt.I64(tag + "_duration")
 	cur := verifrt.I64(tag + "_current_epoch")
 	hgt := verifrt.I64(tag + "_start_height")
-	verifrt.Assume(dur > 0 && dur < horizon && cur >= 0 && cur < (int64(1)<<40) && hgt >= 0)
+	verifrt.Assume(verifrt.All(dur > 0, dur < horizon, cur >= 0, cur < (int64(1)<<40), hgt >= 0))
 	info := epochstypes.EpochInfo{
 		Identifier: id, StartTime: symTime(tag + "_start_time"), Duration: time.Duration(dur), CurrentEpoch: cur,
 		CurrentEpochStartTime: symTime(tag + "_cur_start_time"), EpochCountingStarted: verifrt.Bool(tag + "_started"),
@@ -89,14 +89,11 @@ func VerifC15Tick() {
 		verifrt.Assert(found, "epoch info still present")
 		ticks := !bt.Before(p.StartTime) && (!p.EpochCountingStarted || bt.After(p.CurrentEpochStartTime.Add(p.Duration)))
 		if !ticks {
-			verifrt.Assert(post.CurrentEpoch == p.CurrentEpoch && post.CurrentEpochStartTime.Equal(p.CurrentEpochStartTime) &&
-				post.EpochCountingStarted == p.EpochCountingStarted && post.CurrentEpochStartHeight == p.CurrentEpochStartHeight,
-				"no tick: the identifier is untouched")
+			verifrt.Assert(verifrt.All(post.CurrentEpoch == p.CurrentEpoch, post.CurrentEpochStartTime.Equal(p.CurrentEpochStartTime), post.EpochCountingStarted == p.EpochCountingStarted, post.CurrentEpochStartHeight == p.CurrentEpochStartHeight), "no tick: the identifier is untouched")
 			continue
 		}
 		if !p.EpochCountingStarted {
-			verifrt.Assert(post.CurrentEpoch == 1 && post.EpochCountingStarted && post.CurrentEpochStartTime.Equal(p.StartTime),
-				"first tick: epoch number becomes 1 and starts at the start time")
+			verifrt.Assert(verifrt.All(post.CurrentEpoch == 1, post.EpochCountingStarted, post.CurrentEpochStartTime.Equal(p.StartTime)), "first tick: epoch number becomes 1 and starts at the start time")
 			want = append(want, call{false, id, 1})
 		} else {
 			verifrt.Assert(post.CurrentEpoch == p.CurrentEpoch+1, "a tick advances the epoch number by exactly one")
@@ -104,7 +101,7 @@ func VerifC15Tick() {
 			want = append(want, call{true, id, p.CurrentEpoch}, call{false, id, p.CurrentEpoch + 1})
 		}
 		verifrt.Assert(post.CurrentEpochStartHeight == height, "tick records the block height")
-		verifrt.Assert(post.StartTime.Equal(p.StartTime) && post.Duration == p.Duration && post.Identifier == id, "start time, duration and identifier never change")
+		verifrt.Assert(verifrt.All(post.StartTime.Equal(p.StartTime), post.Duration == p.Duration, post.Identifier == id), "start time, duration and identifier never change")
 	}
 	ok := len(rec.calls) == len(want)
 	if ok {
@@ -129,7 +126,7 @@ func VerifC15CatchUp() {
 	// reachable started states: counting starts in a block at or after StartTime, and block times
 	// never decrease, so the previous block time and the current epoch start are >= StartTime
 	if info.EpochCountingStarted {
-		verifrt.Assume(!prev.Before(info.StartTime) && !info.CurrentEpochStartTime.Before(info.StartTime))
+		verifrt.Assume(verifrt.All(!prev.Before(info.StartTime), !info.CurrentEpochStartTime.Before(info.StartTime)))
 	}
 	ctx := verifrt.NewContextAt(1, prev, "exocoretestnet_233-1")
 	put(ctx, info)
@@ -143,7 +140,7 @@ func VerifC15CatchUp() {
 		cur, _ := k.GetEpochInfo(ctx, "day")
 		if last.EpochCountingStarted {
 			d := cur.CurrentEpoch - last.CurrentEpoch
-			verifrt.Assert(d == 0 || d == 1, "at most one epoch per block")
+			verifrt.Assert(verifrt.Any(d == 0, d == 1), "at most one epoch per block")
 			verifrt.Assert((d == 1) == t.After(last.CurrentEpochStartTime.Add(last.Duration)), "epoch advances exactly when the block time is past the epoch end")
 		}
 		last = cur
